@@ -44,6 +44,30 @@ def _test(node: ast.expr, want: bool) -> list[list[tuple[str, bool]]]:
                     out.append(p + w)
             prefix = [p + w for p in prefix for w in _test(v, not want)]
         return out
+    if isinstance(node, ast.Compare) and len(node.ops) == 1 and isinstance(node.ops[0], (ast.In, ast.NotIn)) \
+            and isinstance(node.comparators[0], (ast.Tuple, ast.List, ast.Set)) and node.comparators[0].elts \
+            and all(isinstance(x, ast.Constant) for x in node.comparators[0].elts):
+        # x in ('a', 'b')  is  x == 'a' or x == 'b'
+        alts = ast.BoolOp(op=ast.Or(), values=[ast.Compare(left=node.left, ops=[ast.Eq()], comparators=[x]) for x in node.comparators[0].elts])
+        return _test(alts, want if isinstance(node.ops[0], ast.In) else not want)
+    if isinstance(node, ast.Compare) and len(node.ops) == 1:
+        # emptiness tests on a length have one spelling: `len(x) > 0`
+        l, op, r = node.left, node.ops[0], node.comparators[0]
+
+        def is_len(e):
+            return isinstance(e, ast.Call) and isinstance(e.func, ast.Name) and e.func.id == 'len' and len(e.args) == 1 and not e.keywords
+
+        def is_int(e, k):
+            return isinstance(e, ast.Constant) and type(e.value) is int and e.value == k
+        nonempty = None
+        if is_len(l) and is_int(r, 0) and isinstance(op, (ast.Eq, ast.NotEq, ast.Gt, ast.LtE)):
+            nonempty, subj = isinstance(op, (ast.NotEq, ast.Gt)), l
+        elif is_len(l) and is_int(r, 1) and isinstance(op, (ast.GtE, ast.Lt)):
+            nonempty, subj = isinstance(op, ast.GtE), l
+        elif is_len(r) and is_int(l, 0) and isinstance(op, (ast.Eq, ast.NotEq, ast.Lt, ast.GtE)):
+            nonempty, subj = isinstance(op, (ast.NotEq, ast.Lt)), r
+        if nonempty is not None:
+            return [[(f'{ast.unparse(subj)} > 0', want == nonempty)]]
     if isinstance(node, ast.Compare) and len(node.ops) == 1 and isinstance(node.ops[0], (ast.NotIn, ast.NotEq, ast.IsNot)):
         pos = {ast.NotIn: ast.In, ast.NotEq: ast.Eq, ast.IsNot: ast.Is}[type(node.ops[0])]()
         flipped = ast.Compare(left=node.left, ops=[pos], comparators=node.comparators)
@@ -104,10 +128,10 @@ def paths(stmts: list[ast.stmt], limit: int = 4096) -> list[SPath]:
         if isinstance(s, ast.If):
             for facts in _test(s.test, True):
                 if _consistent(p.conds, facts):
-                    go(list(s.body) + rest, SPath(p.conds + facts, list(p.actions), p.end))
+                    go(list(s.body) + rest, SPath(p.conds + [f for f in facts if f not in p.conds], list(p.actions), p.end))
             for facts in _test(s.test, False):
                 if _consistent(p.conds, facts):
-                    go(list(s.orelse) + rest, SPath(p.conds + facts, list(p.actions), p.end))
+                    go(list(s.orelse) + rest, SPath(p.conds + [f for f in facts if f not in p.conds], list(p.actions), p.end))
             return
         for kind, cls in (('continue', ast.Continue), ('break', ast.Break), ('return', ast.Return), ('raise', ast.Raise)):
             if isinstance(s, cls):
